@@ -372,6 +372,7 @@ theorem encoding_touches_values_only (C : Codec) (hA : C.AsciiOK) (hr : C.RoundT
   congr 1
   exact xcr_decodeNode C hA (some name) [] t hn
 
+example : ∀ c ∈ strImpl demo, isScalar c = true := by decide
 example : asciiNames demo = true := by decide
 example : decodeNodeX asciiCodec (some (ofS "ascii")) [] demo = ofS "<p title=\"&#9731;&#233;\">a&amp;&#9731;<br/></p>" := by
   decide +kernel
@@ -565,13 +566,27 @@ theorem xml_declaration (e : PStr) :
   · cases h : isPythonSpecific e <;> simp [xmlDeclaration, h, ofS]
   · decide
 
-/-- the generated `PYTHON_SPECIFIC_ENCODINGS` holds the names the documentation lists (both spellings) -/
+/-- the names the Python documentation lists as Python-specific encodings (both spellings), as the property states them -/
+def documentedPythonSpecific : List PStr :=
+  [ofS "idna", ofS "mbcs", ofS "oem", ofS "palmos", ofS "punycode", ofS "raw_unicode_escape", ofS "undefined",
+   ofS "unicode_escape", ofS "raw-unicode-escape", ofS "unicode-escape", ofS "string-escape", ofS "string_escape"]
+
+/-- the WHOLE generated `PYTHON_SPECIFIC_ENCODINGS` table is exactly that list (each way), so `isPythonSpecific` is
+    membership in the documented list; real codec names — and other letter cases of the listed ones — are not in it -/
 theorem python_specific_table :
-    [ofS "idna", ofS "mbcs", ofS "oem", ofS "palmos", ofS "punycode", ofS "raw_unicode_escape", ofS "undefined",
-     ofS "unicode_escape", ofS "raw-unicode-escape", ofS "unicode-escape", ofS "string-escape", ofS "string_escape"].all
-      isPythonSpecific = true
+    documentedPythonSpecific.all isPythonSpecific = true
+    ∧ pythonSpecificEncodings.all (fun e => documentedPythonSpecific.contains e) = true
     ∧ [ofS "utf-8", ofS "ascii", ofS "latin-1", ofS "utf-16", ofS "koi8-r", ofS "IDNA", []].all (fun e => !isPythonSpecific e) = true := by
   decide
+
+theorem isPythonSpecific_iff (e : PStr) : isPythonSpecific e = true ↔ e ∈ documentedPythonSpecific := by
+  constructor
+  · intro h
+    have hm : e ∈ pythonSpecificEncodings := List.contains_iff_mem.mp h
+    have := List.all_eq_true.mp python_specific_table.2.1 e hm
+    exact List.contains_iff_mem.mp this
+  · intro h
+    exact List.all_eq_true.mp python_specific_table.1 e h
 
 /-! ## 5. re-detection: the output of an ASCII-compatible codec carries a declaration a reader finds -/
 
@@ -629,6 +644,8 @@ theorem redetect_bom (s : PStr) (c : Nat) (cs : PStr) (h0 : c ≠ 0) (hc : c < 0
 /-- without that proviso it fails: a `utf-16` document that begins with U+0000 carries `FF FE 00 00`, the UTF-32-LE mark -/
 theorem redetect_bom_needs_nonzero_start : sniffBom (utf16Codec.enc [0, 60]) = some .utf32le := by decide
 
+example : utf8Codec.AsciiCompat ∧ (tableCodec sb_koi8_r).AsciiCompat :=
+  ⟨utf8_asciiCompat, (sb_table_codec_laws (ofS "koi8-r") sb_koi8_r (by simp [sbCodecs, ofS])).2.2 (by decide)⟩
 example : quietDecl (ofS "<html><head><title>chars et al</title><meta a=\"c\" ") = true := by decide
 example : quietDecl (ofS "<meta content=\"text/html; x=CHARSET; ") = false := by decide
 example : findDeclared (utf8Codec.enc (ofS "<html><head><meta " ++ ofS "charset=\"" ++ ofS "utf-8" ++ [34] ++ [0x2603, 0x1F600])) = some (ofS "utf-8") := by
